@@ -41,6 +41,7 @@ type signModel struct {
 	calls      int
 	sentReq    *kmspb.AsymmetricSignRequest  // as the repository sent it
 	sentResp   *kmspb.AsymmetricSignResponse // as delivered to the repository (nil if an error was delivered)
+	sentSig    []byte                        // private copy of the delivered signature bytes (the caller may edit what it was given)
 	respErr    error
 }
 
@@ -84,6 +85,7 @@ func (s *signModel) AsymmetricSign(_ context.Context, in *kmspb.AsymmetricSignRe
 		s.respMutate(resp)
 	}
 	s.sentResp = resp
+	s.sentSig = append([]byte(nil), resp.GetSignature()...)
 	return resp, nil
 }
 
@@ -123,6 +125,7 @@ var goodOpts = optCases()[0]
 
 type signStats struct {
 	genuine, rejectedCorrupt, rejectedOpts, rejectedSvc, acceptedLegit int
+	forcedGenuine                                                      int // genuine signatures returned in the cases with a forced checksum value
 }
 
 type signProbe struct {
@@ -134,13 +137,20 @@ type signProbe struct {
 }
 
 // signCase runs one family of probes for a signature of sigLen bytes.
-func signCase(c *core.Ctx, i int, gname string, r *rand.Rand, sigLen int, st *signStats) {
+func signCase(c *core.Ctx, i int, gname string, r *rand.Rand, sigLen int, force *uint32, st *signStats) {
 	sig := make([]byte, sigLen)
 	for k := range sig {
 		sig[k] = byte(r.UintN(256))
 	}
 	if crc(sig) == 0 { // keep "checksum absent" distinguishable from "checksum matches"
 		sig[0] ^= 1
+	}
+	if force != nil { // audit dimension: a signature whose CRC32C is a chosen boundary value
+		forceCRC(sig, *force)
+		if uint32(crc(sig)) != *force {
+			panic("c20: forceCRC failed")
+		}
+		c.Count(fmt.Sprintf("sign/forced-checksum-value/0x%08x", *force), 1)
 	}
 	other := make([]byte, sigLen)
 	for k := range other {
@@ -321,30 +331,8 @@ func signCase(c *core.Ctx, i int, gname string, r *rand.Rand, sigLen int, st *si
 			continue
 		}
 		// a signature was returned: everything the property lists must hold (ground truth from the model)
-		var why []string
 		resp := s.sentResp
-		if !p.opt.pss {
-			why = append(why, "the signer options are not RSA-PSS with SHA-256 ("+p.opt.name+")")
-		}
-		if resp == nil {
-			why = append(why, fmt.Sprintf("the service delivered no response (calls=%d err=%v)", s.calls, s.respErr))
-		} else {
-			if crc(resp.GetSignature()) != resp.GetSignatureCrc32C().GetValue() {
-				why = append(why, fmt.Sprintf("crc32c(delivered signature)=%d but delivered signature_crc32c=%d", crc(resp.GetSignature()), resp.GetSignatureCrc32C().GetValue()))
-			}
-			if !resp.GetVerifiedDigestCrc32C() {
-				why = append(why, "the service did not confirm digest_crc32c (verified_digest_crc32c=false)")
-			}
-			if s.sentReq.GetDataCrc32C() != nil && !resp.GetVerifiedDataCrc32C() {
-				why = append(why, "the request carried data_crc32c and the service did not confirm it (verified_data_crc32c=false)")
-			}
-			if !bytes.Equal(out, resp.GetSignature()) {
-				why = append(why, "the returned bytes are not the signature of the response")
-			}
-			if s.sentReq.GetName() != keyVer || !bytes.Equal(s.sentReq.GetDigest().GetSha256(), p.digest) {
-				why = append(why, "the request did not carry the given key version name and digest")
-			}
-		}
+		why := signWhy(s, p.opt, out, keyVer, p.digest)
 		if len(why) > 0 {
 			c.Violate(core.Violation{Kind: "oracle", Entry: "Signer.Sign", Site: "signature-returned-for-" + siteGroup(p.class), Gen: g, Case: i,
 				Detail: fmt.Sprintf("Sign returned a %d-byte signature and no error although %v", len(out), why),
@@ -358,6 +346,9 @@ func signCase(c *core.Ctx, i int, gname string, r *rand.Rand, sigLen int, st *si
 		}
 		if p.class == "genuine" {
 			st.genuine++
+			if force != nil {
+				st.forcedGenuine++
+			}
 		} else {
 			st.acceptedLegit++ // e.g. salt-length variants of PSS/SHA-256, consistent replacement
 			c.Count("sign/accepted-legitimately/"+classGroup(p.class), 1)
@@ -388,6 +379,36 @@ func signCase(c *core.Ctx, i int, gname string, r *rand.Rand, sigLen int, st *si
 	}()
 }
 
+// signWhy is the oracle for a call of Signer.Sign that returned a signature and no error: every
+// reason for which, by the property, no signature may be returned (ground truth from the model).
+func signWhy(s *signModel, opt optCase, out []byte, keyVer string, digest []byte) []string {
+	var why []string
+	resp := s.sentResp
+	if !opt.pss {
+		why = append(why, "the signer options are not RSA-PSS with SHA-256 ("+opt.name+")")
+	}
+	if resp == nil {
+		why = append(why, fmt.Sprintf("the service delivered no response (calls=%d err=%v)", s.calls, s.respErr))
+		return why
+	}
+	if crc(s.sentSig) != resp.GetSignatureCrc32C().GetValue() {
+		why = append(why, fmt.Sprintf("crc32c(delivered signature)=%d but delivered signature_crc32c=%d", crc(s.sentSig), resp.GetSignatureCrc32C().GetValue()))
+	}
+	if !resp.GetVerifiedDigestCrc32C() {
+		why = append(why, "the service did not confirm digest_crc32c (verified_digest_crc32c=false)")
+	}
+	if s.sentReq.GetDataCrc32C() != nil && !resp.GetVerifiedDataCrc32C() {
+		why = append(why, "the request carried data_crc32c and the service did not confirm it (verified_data_crc32c=false)")
+	}
+	if !bytes.Equal(out, s.sentSig) {
+		why = append(why, "the returned bytes are not the signature of the response")
+	}
+	if s.sentReq.GetName() != keyVer || !bytes.Equal(s.sentReq.GetDigest().GetSha256(), digest) {
+		why = append(why, "the request did not carry the given key version name and digest")
+	}
+	return why
+}
+
 // siteGroup keeps violation signatures few and stable: all option values share one rule name.
 func siteGroup(class string) string {
 	if strings.HasPrefix(class, "opts:") {
@@ -397,3 +418,63 @@ func siteGroup(class string) string {
 }
 
 func classGroup(class string) string { return class }
+
+// forceCRC rewrites the last four bytes of b so that CRC32C(b) == want. The checksum is an affine
+// function of those four bytes over GF(2) and the linear part is a bijection, so a solution exists.
+func forceCRC(b []byte, want uint32) {
+	if len(b) < 4 {
+		panic("c20: forceCRC needs at least four bytes")
+	}
+	tail := b[len(b)-4:]
+	set := func(x uint32) uint32 {
+		tail[0], tail[1], tail[2], tail[3] = byte(x), byte(x>>8), byte(x>>16), byte(x>>24)
+		return crc32.Checksum(b, castagnoli)
+	}
+	f0 := set(0)
+	var col [32]uint32 // col[j] = L(e_j)
+	for j := 0; j < 32; j++ {
+		col[j] = set(1<<j) ^ f0
+	}
+	// Gaussian elimination on the augmented system sum_j x_j*col[j] = want^f0, one row per output bit.
+	var rows [32]uint64 // low 32 bits: coefficients of x_j, bit 32: right-hand side
+	t := want ^ f0
+	for i := 0; i < 32; i++ {
+		for j := 0; j < 32; j++ {
+			if col[j]>>i&1 == 1 {
+				rows[i] |= 1 << j
+			}
+		}
+		if t>>i&1 == 1 {
+			rows[i] |= 1 << 32
+		}
+	}
+	var x uint32
+	piv := [32]int{}
+	rk := 0
+	for j := 0; j < 32 && rk < 32; j++ {
+		p := -1
+		for i := rk; i < 32; i++ {
+			if rows[i]>>j&1 == 1 {
+				p = i
+				break
+			}
+		}
+		if p < 0 {
+			continue
+		}
+		rows[rk], rows[p] = rows[p], rows[rk]
+		for i := 0; i < 32; i++ {
+			if i != rk && rows[i]>>j&1 == 1 {
+				rows[i] ^= rows[rk]
+			}
+		}
+		piv[rk] = j
+		rk++
+	}
+	for i := 0; i < rk; i++ {
+		if rows[i]>>32&1 == 1 {
+			x |= 1 << piv[i]
+		}
+	}
+	set(x)
+}
